@@ -6,6 +6,7 @@ ADD = 'src/low/easy/relic_bn_add_low.c'
 
 
 def register(add):
+    register_rel(add)
     for conf, tier in (('w8', 'quick'),):
         register_conf(add, conf, tier)
 
@@ -46,3 +47,16 @@ def register_conf(add0, CONF, TIER):
     low('dv_copy', DV, 'dig_t *c; const dig_t *a; size_t n;', 'dv_copy(c, a, n)', shapes=[('none', 'VC_L_NONE')])
     low('dv_cmp', DV, 'const dig_t *a, *b; size_t n;', 'dv_cmp(a, b, n)', shapes=[('none', 'VC_L_NONE'), ('ab', 'VC_L_AB')])
     low('dv_zero', DV, 'dig_t *a; size_t n;', 'dv_zero(a, n)', shapes=[('none', 'VC_L_NONE')])
+
+
+def register_rel(add):
+    """unbounded digit-relation proofs (loop contracts), shipped configuration"""
+    ADDL, SHL = 'src/low/easy/relic_bn_add_low.c', 'src/low/easy/relic_bn_shift_low.c'
+    base = dict(headers=['bn_low_rel.h'], conf='base', route='proof', loops=True, defines=['VC_MAXN=128'], timeout=300,
+                bound_note='all lengths up to 128 digits (8192 bits); loops closed by loop contracts')
+    add('bn_addn_low.rel', ['C01', 'C08'], 'bn_addn_low', contract='bn_addn_low_rel', sources=[ADDL],
+        decls='dig_t *c; const dig_t *a, *b; size_t n;', call='bn_addn_low(c, a, b, n)', **base)
+    add('bn_subn_low.rel', ['C01', 'C08'], 'bn_subn_low', contract='bn_subn_low_rel', sources=[ADDL],
+        decls='dig_t *c; const dig_t *a, *b; size_t n;', call='bn_subn_low(c, a, b, n)', **base)
+    add('bn_lsh1_low.rel', ['C01', 'C08'], 'bn_lsh1_low', contract='bn_lsh1_low_rel', sources=[SHL],
+        decls='dig_t *c; const dig_t *a; size_t n;', call='bn_lsh1_low(c, a, n)', **base)
